@@ -11,6 +11,11 @@ CHECKS = {
    "TLC explores the index-array model of the edit API exhaustively for small bounds (WellFormed + refinement to bonds between named endpoints); the harness replays every transition of that graph and long random edit histories on the real Bondmachine object and TLC validates everything the object did against the property-level spec, so a change to the shifting/renumbering code that corrupts an untouched bond is rejected at the edit that does it.",
    "Bounds: <=2 external inputs/outputs, <=2 processors in the exhaustive part; random histories up to 4/4/4 and depth 40-80. Trusted: TLC, the JSON projection of the real object's public fields/List_* methods.",
    "DESIGN.md §4 C10", "bmverif"),
+ "C04": ("model_checking",
+   "TLA+ specs of the 4-phase bond handshake (BMBond property level; BMBondSim / BMBondHdl as coded) model-checked by TLC for fan-out 1..3 over all program shapes; TLC behaviours and random programs executed on the real simulator VM (and the real generated Verilog) and every recorded execution trace-validated by TLC against BMBond",
+   "TLC explores every interleaving of producer/consumer I/O and padding for small fan-outs on models transcribed from R2owa/I2rw.Simulate, VM.Step and the HDL templates; the same behaviours are replayed tick by tick on the real artefacts (lock-step compared) and everything the real artefacts do is judged by the property-level bond spec, so a handshake change that loses, duplicates or reorders a value under some phase offset is rejected at the tick where it happens.",
+   "Bounds: fan-out <=3 (4 thorough), <=3..6 sends in the exhaustive models; random programs up to 10 sends, fan-out 4, fixed per-opcode delays. Two genuine defects of the pinned tree are listed in known_findings.json by root-cause signature. Trusted: TLC, the projection of VM fields into events, the Verilog interpreter for the HDL back-end.",
+   "DESIGN.md §4 C04", "bmverif"),
 }
 NOT_APPLICABLE = {
  "C18": "static well-formedness of generated Verilog text (parse/lint judgement): no state, transitions or behaviour for a TLA+ specification to decide; see DESIGN.md §5",
